@@ -346,7 +346,8 @@ example : buildOk [⟨none, true, [.lit []]⟩, ⟨none, false, [.lit [], .lit [
 
 With `enable_introspection` the server's table is the plane's routes followed by the meta-agent routes
 (`Generated/MetaRoutes.lean`: texts and registration order read from `swimos_introspection`), and `build` also runs
-`PlaneModel::check_meta_collisions`, which compares every user route with the **node** and **lane** meta patterns. -/
+`PlaneModel::check_meta_collisions`, which compares every user route with the mesh, node and lane meta patterns
+(the mesh pattern since `fix:` F12d, see fixes/F12d.md). -/
 
 /-- The three constants parse (so `mesh_pattern()` … never panic) to these values. -/
 theorem C18_meta_patterns_parse :
@@ -361,9 +362,10 @@ theorem C18_ambiguous_symmetric (p q : Pat) : areAmbiguous p q = areAmbiguous q 
 ambiguous: the model with the error list and the Boolean model of the earlier theorems are the same acceptance test. -/
 theorem C18_build_report_empty_iff (ps : List Pat) : buildBad ps = [] ↔ buildOk ps = true := buildBad_nil_iff ps
 
-/-- `check_meta_collisions` answers `Ok(())` exactly when no route is ambiguous with the node or the lane pattern. -/
+/-- `check_meta_collisions` answers `Ok(())` exactly when no route is ambiguous with the mesh, node or lane pattern. -/
 theorem C18_check_meta_ok_iff (ps : List Pat) :
-    checkMeta ps = none ↔ ∀ p ∈ ps, areAmbiguous metaNode p = false ∧ areAmbiguous metaLane p = false :=
+    checkMeta ps = none ↔ ∀ p ∈ ps, areAmbiguous metaMesh p = false ∧ areAmbiguous metaNode p = false ∧
+      areAmbiguous metaLane p = false :=
   checkMeta_none_iff ps
 
 /-- FULL STATEMENT for the checked meta routes. For every table of registered patterns that `build` accepts WITH
@@ -426,49 +428,49 @@ example : buildOk exIntroTable = true ∧ checkMeta exIntroTable = none ∧
     buildBad [exP, exQ, ⟨none, true, [.lit [97], .lit [99]]⟩] = [0, 1, 2] ∧
     buildBad [exP, ⟨none, true, [.lit [97], .lit [99], .lit [100]]⟩, exQ] = [0, 2] := by decide
 
-/-! ### the mesh meta route is registered but never checked (finding F12d)
+/-! ### the table the server really uses: `user routes ++ [mesh, node, lane]` (F12d repaired)
 
-`register_introspection` appends **three** routes — `swimos:meta:mesh` first — while `check_meta_collisions` looks at
-two. The statement for the table the server really uses is therefore false of the current code. -/
+`register_introspection` appends **three** routes — `swimos:meta:mesh` first. Before `fix:` F12d
+`check_meta_collisions` looked at two of them and this statement was false (witness `["swimos::x"]`,
+`swimos:meta:mesh`; kept as a regression below and in `corpus/C18/plane-random-F12d.ops`). -/
 
-/-- The statement one wants: accepted with introspection ⇒ at most one row of the server's table matches. -/
-def C18_plane_with_introspection_at_most_one : Prop :=
-  ∀ (ps : List Pat), Registered ps → acceptPlane true ps = true → ∀ (sch : Option Bytes) (path : Bytes),
-    (serverRows true ps).countP (fun p => (p.unapplyUri sch path).isSome) ≤ 1
-
-/-- `swimos::x` (scheme `swimos`, one parameter): parses. -/
-def exMeshClash : Pat := ⟨some [115, 119, 105, 109, 111, 115], false, [.param [120]]⟩
-
-/-- Witness: the plane `["swimos::x"]` is accepted with introspection, and `swimos:meta:mesh` is matched by the user
-route (row 0, which `find_route` returns) *and* by the mesh meta route (row 1). -/
-theorem C18_plane_with_introspection_at_most_one_fails : ¬ C18_plane_with_introspection_at_most_one := by
-  intro h
-  have hreg : Registered [exMeshClash] := by
-    intro p hp
-    simp only [List.mem_cons, List.not_mem_nil, or_false] at hp
-    subst hp
-    exact (parse_image _).mpr (by decide)
-  have := h [exMeshClash] hreg (by decide) (some [115, 119, 105, 109, 111, 115]) [109, 101, 116, 97, 58, 109, 101, 115, 104]
-  revert this
-  decide
-
-example : findRoute (serverRows true [exMeshClash]) (some [115, 119, 105, 109, 111, 115]) [109, 101, 116, 97, 58, 109, 101, 115, 104] =
-      some (0, [([120], [109, 101, 116, 97, 58, 109, 101, 115, 104])]) ∧
-    matchingRows 0 (some [115, 119, 105, 109, 111, 115]) [109, 101, 116, 97, 58, 109, 101, 115, 104]
-      (serverRows true [exMeshClash]) = [0, 1] := by decide
-
-/-- What holds of the current code for the whole table: if, in addition, no user route is ambiguous with the mesh
-pattern (the check `fixes/F12d.patch` adds), at most one row of `user routes ++ [mesh, node, lane]` matches. -/
-theorem C18_plane_with_introspection_at_most_one_partial (ps : List Pat) (hreg : Registered ps)
-    (ha : acceptPlane true ps = true) (hmesh : ∀ p ∈ ps, areAmbiguous metaMesh p = false)
-    (sch : Option Bytes) (path : Bytes) :
+/-- FULL STATEMENT. Accepted with introspection ⇒ at most one row of the server's table matches any URI. -/
+theorem C18_plane_with_introspection_at_most_one (ps : List Pat) (hreg : Registered ps)
+    (ha : acceptPlane true ps = true) (sch : Option Bytes) (path : Bytes) :
     (serverRows true ps).countP (fun p => (p.unapplyUri sch path).isSome) ≤ 1 := by
   simp only [acceptPlane, Bool.not_true, Bool.false_or, Bool.and_eq_true, List.isEmpty_iff,
     Option.isNone_iff_eq_none] at ha
   have hb := (buildBad_nil_iff ps).mp ha.1
   simp only [serverRows, ↓reduceIte]
   exact C18_plane_at_most_one _ (registered_append ps _ hreg registered_metaRows)
-    (buildOk_with_all_meta ps hb ha.2 hmesh) sch path
+    (buildOk_with_all_meta ps hb ha.2) sch path
+
+/-- … so `find_route` on the server's table returns the only match, user route or meta-agent route. -/
+theorem C18_find_route_with_introspection_is_the_match (ps : List Pat) (hreg : Registered ps)
+    (ha : acceptPlane true ps = true) (sch : Option Bytes) (path : Bytes) (i : Nat) (kv : KV)
+    (h : findRoute (serverRows true ps) sch path = some (i, kv)) :
+    ∀ j q, (serverRows true ps)[j]? = some q → j ≠ i → q.unapplyUri sch path = none := by
+  simp only [acceptPlane, Bool.not_true, Bool.false_or, Bool.and_eq_true, List.isEmpty_iff,
+    Option.isNone_iff_eq_none] at ha
+  have hb := (buildBad_nil_iff ps).mp ha.1
+  simp only [serverRows, ↓reduceIte] at h ⊢
+  exact C18_find_route_is_the_match_registered _ (registered_append ps _ hreg registered_metaRows)
+    (buildOk_with_all_meta ps hb ha.2) sch path i kv h
+
+/-- `swimos::x` (scheme `swimos`, one parameter): parses. -/
+def exMeshClash : Pat := ⟨some [115, 119, 105, 109, 111, 115], false, [.param [120]]⟩
+
+/-- Regression for F12d: the plane `["swimos::x"]` (which matches `swimos:meta:mesh`, as the mesh meta route does) is
+refused with introspection, naming the mesh route, and accepted without; non-vacuity of the theorem above:
+`exIntroTable` is accepted and `swimos:meta:mesh` resolves to row 2, the mesh meta route, only. -/
+example : exMeshClash.renderable = true ∧ acceptPlane true [exMeshClash] = false ∧ acceptPlane false [exMeshClash] = true ∧
+    checkMeta [exMeshClash] = some ([Generated.meshPatternText], [0]) ∧
+    ((exMeshClash.unapplyUri (some [115, 119, 105, 109, 111, 115]) [109, 101, 116, 97, 58, 109, 101, 115, 104]).isSome = true) ∧
+    acceptPlane true exIntroTable = true ∧
+    findRoute (serverRows true exIntroTable) (some [115, 119, 105, 109, 111, 115]) [109, 101, 116, 97, 58, 109, 101, 115, 104] =
+      some (2, []) ∧
+    matchingRows 0 (some [115, 119, 105, 109, 111, 115]) [109, 101, 116, 97, 58, 109, 101, 115, 104]
+      (serverRows true exIntroTable) = [2] := by decide
 
 /-- Without introspection the server's table is the plane's table (the earlier theorems apply as they are). -/
 theorem C18_server_rows_without_introspection (ps : List Pat) (hreg : Registered ps)
